@@ -276,6 +276,10 @@ def gen_powarr(rng, idx):
     sa, sk = gen.gen_shape_pair(rng)
     if not sa and not sk:
         sk = (2,)
+    if rng.random() < .3:
+        # a size-1 axis of the base stretched in a non-leading position (seeded change C01-12: cyclic instead of
+        # broadcast indexing of the bases)
+        sa, sk = gen.choice(rng, [((2, 1), (2,)), ((2, 1), (3,)), ((2, 1), (2, 3)), ((2, 1, 2), (3, 2)), ((3, 1), (1, 2)), ((2, 1), (1, 3))])
     a = gen.gen_struct(rng, shape=sa, kind="int", nterms=int(rng.integers(0, 4)), maxexp=2, lim=2)
     a["as"] = "poly_T" if len(sa) >= 2 and rng.random() < .35 else "poly"
     n = int(numpy.prod(sk, dtype=int))
